@@ -197,7 +197,7 @@ func framingTrace(args []string) error {
 		return err
 	}
 	waitRead := func(total int) bool {
-		dl := time.Now().Add(3 * time.Second)
+		dl := time.Now().Add(10 * time.Second)
 		for time.Now().Before(dl) {
 			fr.mu.Lock()
 			s, pe := fr.readSum, fr.perr
@@ -305,12 +305,37 @@ func framingTrace(args []string) error {
 			}
 			sent += c
 			if !waitRead(sent) {
-				// after a protocol error the receiver stops reading: expected; otherwise the trace ends short and is rejected
+				// after a protocol error the receiver stops reading: expected.  Otherwise the receiver did not consume the
+				// chunk within the harness' patience (a loaded machine): the run says nothing, it is marked and dropped
+				fr.mu.Lock()
+				pe := fr.perr
+				fr.mu.Unlock()
+				if !pe {
+					rec.Emit("HarnessTimeout")
+				}
 				ok = false
 				break
 			}
 		}
 		_ = ok
+		// the read hook fires before the scan loop hands the packets over: give the receiver time (up to 5 s) to hand
+		// out every legal packet before the first illegal length (or to report the protocol error)
+		want := 0
+		for _, d := range lens {
+			if d < 4 || d > maxLen {
+				break
+			}
+			want++
+		}
+		for i := 0; i < 5000; i++ {
+			fr.mu.Lock()
+			got, pe := fr.pkgs, fr.perr
+			fr.mu.Unlock()
+			if got >= want && (pe || !hasBad) {
+				break
+			}
+			time.Sleep(time.Millisecond)
+		}
 		time.Sleep(300 * time.Microsecond)
 		if hasBad {
 			if sawClose(peer) {
